@@ -11,7 +11,7 @@ package bytecode
 // func value (closure object), NOT the code pointer.
 //@ uninterp func funcvalue_word(v reflect.Value) uintptr
 // trampoline_ptr(t): code address of the origin placeholder passed by the user (func or pointer to func).
-//@ uninterp func trampoline_ptr(t interface{}) uintptr
+//@ pure func trampoline_ptr(t interface{}) uintptr = ite(rt_kind(rt_of(typeof(t))) == reflect.Ptr, rv_pointer(rv_elem(value_of(t))), ite(rt_kind(rt_of(typeof(t))) == reflect.Func, rv_pointer(value_of(t)), uintptr(0)))
 
 //@ trusted func GetFuncSize
 //@   props C14 C03 C16
@@ -37,12 +37,15 @@ package bytecode
 //@   ensures user_space_address: result0 < 0x7fffffff00000000
 //@   ensures names_it: result0 == inner_func(start)
 
-//@ trusted func GetTrampolinePtr
+//@ func GetTrampolinePtr
 //@   props C03
+//@   safety nonil
 //@   assigns nothing
 //@   ensures user_space_address: result0 < 0x7fffffff00000000
 //@   ensures nil_is_zero: trampoline == nil ==> result0 == 0
-//@   ensures function_of_value: result0 == trampoline_ptr(trampoline)
+//@   ensures function_of_value: trampoline != nil && result0 != 0 ==> result0 == trampoline_ptr(trampoline)
+//@   ensures never_fails: result1 == nil
+//@   panics_only_if reflect_rejects_the_kind: true
 
 // ---- little-endian helpers (binary.go) ----------------------------------------------------------------------
 
